@@ -10,7 +10,7 @@ use serde_json::{json, Value as J};
 
 pub static PROP: Prop = Prop {
     id: "C12",
-    rule: "cases: programs from the flat generator (all 32 infix operators, `not OP`, prefix/postfix over atoms and parenthesised groups, conditionals in operand/condition/branch position, strings containing either quote, calls, lists, maps with conditional keys, statement chains; names are never operator words; in a third of the cases a user operator vh_rt is re-registered with another precedence/associativity first and used heavily), plus exhaustive placements: every infix operator as parenthesised left and right child of every other (32x32x2), `not OP` forms under every operator, prefix and postfix operators over parenthesised infix/conditional/prefix/postfix operands, conditionals as operand, condition and branch. Oracle: t = parse(s); s2 = t.expr(); parse(s2) must be Ok(t2) with t2 == t (structural, numbers by mantissa and scale); t2.expr() == s2. Non-trivial: the tree has a compound node (infix, not-infix, conditional, prefix, postfix) directly under an operator or conditional node, or a string containing a quote; distinct by tree skeleton.",
+    rule: "cases: programs from the flat generator (all 32 infix operators, `not OP`, prefix/postfix over atoms and parenthesised groups, conditionals in operand/condition/branch position, strings containing either quote, calls, lists, maps with conditional keys, statement chains; names are never operator words; in a third of the cases a user operator vh_rt is re-registered with another precedence (0, 1, 25 ... 205) and associativity first and used heavily; a sixth of those are chains of vh_rt followed by an operator-like token that is not infix), plus exhaustive placements: every infix operator as parenthesised left and right child of every other (32x32x2), `not OP` forms under every operator, prefix and postfix operators over parenthesised infix/conditional/prefix/postfix operands, conditionals as operand, condition and branch. Oracle: t = parse(s); s2 = t.expr(); parse(s2) must be Ok(t2) with t2 == t (structural, numbers by mantissa and scale); t2.expr() == s2. Non-trivial: the tree has a compound node (infix, not-infix, conditional, prefix, postfix) directly under an operator or conditional node, or a string containing a quote; distinct by tree skeleton.",
     assumptions: &["programs come from the generator's well-formed grammar; a program the engine rejects is counted as excluded (C02 reports it)"],
     budget,
     setup: noop_setup,
@@ -30,8 +30,21 @@ fn budget(t: Tier) -> Budget {
     }
 }
 
+fn register_rt(prec: i64, right: bool) {
+    expression_engine::register_infix_op(
+        "vh_rt",
+        prec as i32,
+        expression_engine::InfixOpType::CALC,
+        if right { expression_engine::InfixOpAssociativity::RIGHT } else { expression_engine::InfixOpAssociativity::LEFT },
+        std::sync::Arc::new(|a, _| Ok(a)),
+    );
+}
+
 pub fn check_text(text: &str, key: &str, nontrivial: bool, st: &mut Stats) -> CaseResult {
-    let case = json!({"text": text});
+    check_text_with(text, key, nontrivial, st, json!({"text": text}))
+}
+
+pub fn check_text_with(text: &str, key: &str, nontrivial: bool, st: &mut Stats, case: J) -> CaseResult {
     let r = guard(|| -> Result<(String, String, Result<(String, String), String>), String> {
         let t = parse_expression(text).map_err(|e| e.to_string())?;
         let s1 = sexp_ast(&t);
@@ -145,17 +158,25 @@ fn case(src: &mut Src, st: &mut Stats, _env: &Env) -> CaseResult {
         // a user operator whose precedence / associativity changes from case to case: the
         // rendering must follow the registration made last
         let prec = *src.choose(&[115i64, 45, 125, 55, 25, 205, 65, 1, 0]);
-        // (a right-associative operator at precedence 0 would need a negative binding power)
-        let right = prec != 0 && src.chance(1, 2);
-        expression_engine::register_infix_op(
-            "vh_rt",
-            prec as i32,
-            expression_engine::InfixOpType::CALC,
-            if right { expression_engine::InfixOpAssociativity::RIGHT } else { expression_engine::InfixOpAssociativity::LEFT },
-            std::sync::Arc::new(|a, _| Ok(a)),
-        );
+        let right = src.chance(1, 2);
+        register_rt(prec, right);
         tab.infix.insert("vh_rt".to_string(), (prec, right));
         st.hist("re-registered-operator");
+        if src.chance(1, 6) {
+            // a chain of the user operator followed by an operator-like token that is not infix
+            // (the lenient reading: a new statement starts there)
+            let n = 2 + src.pick(3);
+            let mut text = String::from("a");
+            for _ in 1..n {
+                text.push_str(" vh_rt ");
+                text.push_str(*src.choose(&["b", "1", "( c )", "- d", "e ++"]));
+            }
+            text.push(' ');
+            text.push_str(*src.choose(&["! g", "AND [ g ]", "OR [ g ]", ": g", "not g", "! g vh_rt h", "++ ! g"]));
+            st.hist("user-operator-chain-with-tail");
+            st.sample(|| json!({"text": text, "vh_rt": [prec, right]}));
+            return check_text_with(&text, &format!("tail:{}:{}:{}", prec, right, text), true, st, json!({"text": text, "vh_rt": [prec, right]}));
+        }
     }
     let mut cfg = SynCfg::new(&tab);
     if dynamic {
@@ -174,5 +195,9 @@ fn case(src: &mut Src, st: &mut Stats, _env: &Env) -> CaseResult {
 
 fn replay(case: &J, st: &mut Stats, _env: &Env) -> CaseResult {
     st.eval();
+    if let Some(r) = case["vh_rt"].as_array() {
+        register_rt(r[0].as_i64().unwrap_or(100), r[1].as_bool().unwrap_or(false));
+        return check_text_with(case["text"].as_str().unwrap_or(""), "", false, st, case.clone());
+    }
     check_text(case["text"].as_str().unwrap_or(""), "", false, st)
 }
